@@ -1,25 +1,25 @@
 """Registry: property id -> generator (+ optional extra check, per-command timeout)."""
-import fwd, grad, comp, total, rnd
+import fwd, grad, comp, total, rnd, sizes
 
 REGISTRY = {
     'C01': {'gen': grad.gen_C01, 'cmd_timeout_ms': 8000},
-    'C02': {'gen': grad.gen_C02, 'once': grad.exhaustive_backward},
-    'C03': {'gen': fwd.gen_C03},
-    'C04': {'gen': fwd.gen_C04},
-    'C05': {'gen': fwd.gen_C05},
-    'C06': {'gen': fwd.gen_C06},
-    'C07': {'gen': grad.gen_C07},
+    'C02': {'gen': grad.gen_C02, 'once': lambda tier: grad.exhaustive_backward(tier) + sizes.sweep_C02(tier)},
+    'C03': {'gen': fwd.gen_C03, 'once': sizes.sweep_C03},
+    'C04': {'gen': fwd.gen_C04, 'once': sizes.sweep_C04},
+    'C05': {'gen': fwd.gen_C05, 'once': sizes.sweep_C05},
+    'C06': {'gen': fwd.gen_C06, 'once': sizes.sweep_C06},
+    'C07': {'gen': grad.gen_C07, 'once': sizes.sweep_C07},
     'C08': {'gen': grad.gen_C08, 'once': grad.exhaustive_flag_states},
-    'C09': {'gen': total.gen_C09, 'once': lambda tier: total.exhaustive_small_scope('quick' if tier == 'quick' else 'thorough') + grad.exhaustive_backward(tier)},
+    'C09': {'gen': total.gen_C09, 'once': lambda tier: total.exhaustive_small_scope('quick' if tier == 'quick' else 'thorough') + grad.exhaustive_backward(tier) + sizes.sweep_C04(tier)},
     'C10': {'gen': total.gen_C10},
-    'C11': {'gen': comp.gen_C11},
-    'C12': {'gen': comp.gen_C12},
-    'C13': {'gen': comp.gen_C13},
-    'C14': {'gen': comp.gen_C14},
-    'C15': {'gen': comp.gen_C15},
-    'C16': {'gen': comp.gen_C16},
-    'C17': {'gen': comp.gen_C17},
-    'C18': {'gen': rnd.gen_C18, 'extra': rnd.extra_C18},
-    'C19': {'gen': comp.gen_C19},
+    'C11': {'gen': comp.gen_C11, 'once': sizes.sweep_C11},
+    'C12': {'gen': comp.gen_C12, 'once': sizes.sweep_C12},
+    'C13': {'gen': comp.gen_C13, 'once': sizes.sweep_C12},
+    'C14': {'gen': comp.gen_C14, 'once': sizes.sweep_C14},
+    'C15': {'gen': comp.gen_C15, 'once': sizes.sweep_C14},
+    'C16': {'gen': comp.gen_C16, 'once': sizes.sweep_C16},
+    'C17': {'gen': comp.gen_C17, 'once': sizes.sweep_C17},
+    'C18': {'gen': rnd.gen_C18, 'extra': rnd.extra_C18, 'once': sizes.sweep_C18},
+    'C19': {'gen': comp.gen_C19, 'once': sizes.sweep_C19},
     'C20': {'gen': rnd.gen_C20, 'race': True, 'env': {'HARNESS_NO_RAW': '1'}, 'extra': rnd.extra_C20},
 }
